@@ -139,6 +139,17 @@ pub fn script_calls(calls: &[CallSpec], ending: Ending, log_first: bool) -> (Vec
     (bytes(v), data)
 }
 
+/// A script whose receipts depend on the time of the block it is executed in:
+/// `log(time(height), height)` of the block being built, then `ret 1`.
+pub fn script_log_block_time() -> Vec<u8> {
+    bytes(vec![
+        op::bhei(0x10),
+        op::time(0x11, 0x10),
+        op::log(0x11, 0x10, RegId::ZERO, RegId::ZERO),
+        op::ret(RegId::ONE),
+    ])
+}
+
 /// A trivial predicate that evaluates to true.
 pub fn predicate_true() -> Vec<u8> {
     bytes(vec![op::ret(RegId::ONE)])
